@@ -81,7 +81,8 @@ def measure_cold(arg):
         return seen, seen_set
     first, _ = once()
     _, second = once()
-    return [list(k) for k in first if k not in second]
+    return {'cold': [list(k) for k in first if k not in second],
+            'all': [list(k) for k in first]}
 
 
 def _measure_one(kind, instr):
@@ -465,7 +466,8 @@ def gen_threads(rng, ctx, pop, idx):
     pr = rng.random()
     warm = False if pop == 'I' else rng.choice([True, 'lexer'])
     cold = None
-    if rng.random() < 0.25 and not fault_variant:
+    sweep_kind = rng.random()
+    if sweep_kind < 0.4 and not fault_variant:
         # sweep a single pre-emption over the "cold-only" lines of thread
         # 0's first op: code that runs on first use only
         if pop == 'S':
@@ -474,14 +476,20 @@ def gen_threads(rng, ctx, pop, idx):
         ck = ('c20_cold', ops.ref_key(
             op0.get('api', op0['k']), op0.get('inp'), op0.get('opts'),
             None), str(warm))
-        cold = ctx.memo.get(ck)
-        if cold is None:
-            cold = ctx.memo[ck] = ctx.in_fork('C20', 'measure_cold',
+        locs = ctx.memo.get(ck)
+        if locs is None:
+            locs = ctx.memo[ck] = ctx.in_fork('C20', 'measure_cold',
                                               [op0, warm])
+        # 0.25: lines that run on first use only; 0.15: any source line of
+        # the op (first visit) - a single pre-emption there, the other
+        # threads run to completion, then thread 0 resumes
+        cold = locs['cold'] if sweep_kind < 0.25 else locs['all']
     if cold:
-        loc = cold[(sub // 4) % len(cold)]
+        loc = cold[(sub // 4) % len(cold)] if sweep_kind < 0.25 \
+            else cold[rng.randrange(len(cold))]
         policy = {'kind': 'coldline', 'file': loc[0], 'line': loc[1],
-                  'ncold': len(cold)}
+                  'ncold': len(cold),
+                  'sweep': 'cold' if sweep_kind < 0.25 else 'any'}
     elif pop == 'I' and sub % 3 == 0:
         # stratified single pre-emption over the initialisation window
         win = ctx.memo.get('c20_window')
